@@ -50,13 +50,37 @@ func (f *Tagbody) Call(s *slip.Scope, args slip.List, depth int) slip.Object {
 	ns.TagBody = true
 	d2 := depth + 1
 	for i := 0; i < len(args); i++ {
-		if gt, _ := slip.EvalArg(ns, args, i, d2).(*GoTo); gt != nil {
-			for i++; i < len(args); i++ {
-				if args[i] == gt.Tag {
-					break
-				}
+		switch args[i].(type) {
+		case slip.List, slip.Funky:
+			// a statement
+		default:
+			continue // a tag, never evaluated
+		}
+		switch tr := slip.EvalArg(ns, args, i, d2).(type) {
+		case *slip.ReturnResult:
+			return tr
+		case *GoTo:
+			if i = tagIndex(args, 0, tr.Tag); i < 0 {
+				return tr // a tag of an enclosing tagbody
 			}
 		}
 	}
 	return nil
+}
+
+// tagIndex returns the index of the tag in the statements args[start:] or -1
+// if the tag is not one of them. Tags before the current statement are found
+// as well so that a go can jump backward.
+func tagIndex(args slip.List, start int, tag slip.Object) int {
+	for i := start; i < len(args); i++ {
+		switch args[i].(type) {
+		case slip.List, slip.Funky:
+			// a statement
+		default:
+			if args[i] == tag {
+				return i
+			}
+		}
+	}
+	return -1
 }
